@@ -125,11 +125,17 @@ def emit(prog):
                 # from starting with a parenthesis (semantically neutral prefix)
                 cond = "True and " + cond
             lines.append(f"require[{s[1][0] / s[1][1]!r}] {cond}")
+        elif k == "cls":
+            # a class whose property default is random and does not mention self: every
+            # instance falling back on the default evaluates the expression anew
+            lines.append(f"class {s[1]}:\n    foo: {pe(s[2])}")
         elif k == "obj":
             base = 100 * nobj
             nobj += 1
             ego = "ego = " if s[1] else ""
-            lines.append(f"{ego}new Object at ({base} + ({pe(s[2])}) % 7, 0), with foo {pe(s[3])}, with requireVisible False")
+            cls = s[4] if len(s) > 4 else "Object"
+            foo = "" if s[3][0] == "default" else f" with foo {pe(s[3])},"
+            lines.append(f"{ego}new {cls} at ({base} + ({pe(s[2])}) % 7, 0),{foo} with requireVisible False")
         else:
             raise ValueError(k)
     return "\n".join(lines) + "\n"
@@ -183,6 +189,7 @@ class Ref:
         self.reqs = []  # (node, Fraction prob)
         self.ego = None
         nobj = 0
+        classes = {}
         for s in prog["stmts"]:
             k = s[0]
             if k == "let":
@@ -194,10 +201,15 @@ class Ref:
                 self.reqs.append((self.build(s[1]), Fraction(1)))
             elif k == "soft":
                 self.reqs.append((self.build(s[2]), Fraction(s[1][0], s[1][1])))
+            elif k == "cls":
+                classes[s[1]] = s[2]
             elif k == "obj":
                 x = self.op(lambda v, b=100 * nobj: float(b + v % 7), self.build(s[2]))
                 nobj += 1
-                self.objs.append((x, self.build(s[3])))
+                # (language reference, "Property defaults": the default-value expression is
+                # evaluated each time an instance is created, so each instance gets its own draw)
+                foo = self.build(classes[s[4]]) if s[3][0] == "default" else self.build(s[3])
+                self.objs.append((x, foo))
                 if s[1]:  # `ego = new Object ...` (the ego may be re-assigned later)
                     self.ego = len(self.objs) - 1
         if self.ego is not None:  # Scene.objects lists the (final) ego first, then the others
@@ -556,6 +568,8 @@ def programs(draw):
     kinds = ["leaf"] + [draw(st.sampled_from(
         ["let", "let", "leaf", "leaf", "leaf", "param", "param", "req", "soft", "obj",
          "tuplet", "rebind", "egoswap"])) for _ in range(nstmts)]
+    if draw(st.integers(0, 3)) == 0:
+        kinds.insert(draw(st.integers(1, len(kinds))), "clsdef")
     for k in kinds:
         if k == "let":
             name = fresh()
@@ -593,6 +607,24 @@ def programs(draw):
             ego = draw(st.booleans())  # may re-assign the ego after a require mentioned it
             stmts.append(["obj", ego, scalar(1), scalar(1)])
             have_ego[0] = have_ego[0] or ego
+        elif k == "clsdef":
+            lo = draw(SMALL)
+            closed = draw(st.sampled_from([
+                ["uni", [["c", lo], ["c", lo + 1]]],
+                ["uni", [["c", lo], ["c", lo + 2], ["c", lo + 5]]],
+                ["dr", ["c", lo], ["c", lo + 2]],
+                ["bin", "+", ["uni", [["c", 0], ["c", 1]]], ["uni", [["c", lo], ["c", lo + 2]]]],
+                ["disc", [[["c", lo], 1], [["c", lo + 1], 3]]],
+            ]))
+            stmts.append(["cls", "K0", closed])
+            for n in range(draw(st.integers(2, 3))):
+                ego = draw(st.booleans())
+                override = n > 0 and draw(st.integers(0, 3)) == 0
+                stmts.append(["obj", ego, scalar(1), scalar(1) if override else ["default"], "K0"])
+                have_ego[0] = have_ego[0] or ego
+            if have_ego[0] and draw(st.booleans()):
+                stmts.append(["req", ["cmp", draw(st.sampled_from(["<", "<=", ">", ">=", "!="])),
+                                      ["egofoo"], scalar(1, True)]])
         elif k == "egoswap":
             # an ego, a requirement that mentions it, then another object becomes the ego:
             # the requirement keeps constraining the ego it was stated for
